@@ -58,13 +58,13 @@ class C14(Check):
                 sibling['edges'] = [e for e in sibling['edges'] if e[0].split('/')[0] in keep and e[1].split('/')[0] in keep]
         kinds = {
             'S-getters': ['get_nodes', 'get_edges', 'get_edge', 'collect_edges', 'get_node_template', 'getitem', 'deepcopy',
-                          'update_template'],
+                          'update_template', 'derive_op', 'derive_op'],
             'S-compile': ['compile', 'compile', 'run', 'run', 'jac', 'get_nodes'],
             'S-yaml': ['to_yaml', 'to_yaml', 'compile', 'run', 'deepcopy'],
             'S-hier-edges': ['get_edges', 'collect_edges', 'collect_edges_d', 'compile', 'run', 'get_edge'],
             'S-fault': ['to_yaml_fault', 'to_yaml', 'run', 'compile'],
             'S-mixed': ['compile', 'run', 'jac', 'get_nodes', 'get_edges', 'get_edge', 'collect_edges', 'collect_edges_d',
-                        'get_node_template', 'getitem', 'to_yaml', 'deepcopy', 'update_template'],
+                        'get_node_template', 'getitem', 'to_yaml', 'deepcopy', 'update_template', 'derive_op'],
         }[stratum]
         ops = []
         nodes = list(flat_nodes)
@@ -85,6 +85,14 @@ class C14(Check):
                               'solver': rng.choice(['euler', 'heun']),
                               'outputs': {f'o{i}': n for i, n in enumerate(net.state_names)}}
                 ops.append({'op': 'run', 'obj': 'T', 'kw': copy.deepcopy(run_kw)})
+                if sibling is not None and rng.random() < 0.5:
+                    # the same kind of call on the sibling that shares T's template objects: its repeated results must
+                    # not depend on what was done to T in between (and vice versa)
+                    snet = models.RefNet(sibling)
+                    skw = copy.deepcopy(run_kw)
+                    skw['outputs'] = {f'o{i}': n for i, n in enumerate(snet.state_names)}
+                    skw['clear'] = False
+                    ops.append({'op': 'run', 'obj': 'S', 'kw': skw})
             elif k == 'get_nodes':
                 ops.append({'op': 'getter', 'obj': 'T', 'which': 'get_nodes', 'args': [['all'] * depth]})
             elif k == 'get_edges':
@@ -105,6 +113,24 @@ class C14(Check):
             elif k == 'getitem':
                 key = rng.choice(list(spec.get('circuits') or spec['nodes']))
                 ops.append({'op': 'getitem', 'obj': 'T', 'key': key})
+            elif k == 'derive_op':
+                # what loading a template derived via `base:` does to its base: add-only, replace, remove edits, with and
+                # without a variables update
+                kind = rng.choice(['add', 'add', 'replace', 'remove', 'add+replace'])
+                node = rng.choice(nodes)
+                lib = net.inst[[key for key in net.inst if key[0] == node][0]]['lib']
+                c0 = (models.LIB[lib]['const'] or ['x'])[0]
+                edits, variables = {}, None
+                if 'add' in kind:
+                    edits['add'] = ["zq' = -zq"]
+                    variables = {'zq': 'variable(0.1)'}
+                if 'replace' in kind:
+                    edits['replace'] = {c0: f'({c0}*1.5)'}
+                if kind == 'remove':
+                    edits['remove'] = [f'*{c0}', f'{c0}*']
+                if variables is not None and rng.random() < 0.5 and kind != 'add':
+                    variables = None
+                ops.append({'op': 'derive_operator', 'obj': 'T', 'node': node, 'edits': edits, 'variables': variables})
             elif k == 'deepcopy':
                 ops.append({'op': 'deepcopy', 'obj': 'T', 'as': f'D{j}'})
             elif k == 'update_template':
@@ -173,7 +199,7 @@ class C14(Check):
                     break
             # (3) repeat law for in_place=False compile / run
             if op['op'] in ('compile', 'run'):
-                key = json.dumps([op['op'], op.get('api'), op['kw']], sort_keys=True)
+                key = json.dumps([op.get('obj', 'T'), op['op'], op.get('api'), op['kw']], sort_keys=True)
                 cmp_ = dict(out)
                 if op['op'] == 'compile' and cmp_.get('status') == 'ok':
                     cmp_.pop('y0', None); cmp_.pop('vf', None)
@@ -200,7 +226,7 @@ class C14(Check):
         cands = []
         seen_any = False
         for k, (op, out) in enumerate(executed):
-            if op['op'] in ('compile', 'run') and out.get('status') == 'raised' and seen_any:
+            if op['op'] in ('compile', 'run') and out.get('status') == 'raised' and seen_any and op.get('obj', 'T') == 'T':
                 cands.append((k, op, out))
             seen_any = True
         n_snap = len(obsv.jobs)
